@@ -15,8 +15,8 @@ terms (E1) are extracted on every path and checked:
 import ast
 import re
 
-from sa.interp import Interp, Scenario, Sym, Const, Bytes, Enum, render, render_items, render_item, merge_consts, lin_parse, lin_norm, lin_add, sl
-from sa.loader import AnalysisError, dotted
+from sa.interp import Interp, Scenario, Sym, Const, Bytes, Enum, Frame, State, render, render_items, render_item, merge_consts, lin_parse, lin_norm, lin_add, sl
+from sa.loader import AnalysisError, FunctionInfo, dotted
 from sa import codec, tables
 
 noinline = lambda f: False  # noqa: E731
@@ -637,17 +637,28 @@ def check_text_codecs(rep, prog):
 
 
 # ------------------------------------------------------------------------------------------------ C08.g
+def _class_const(prog, c, name):
+    """Value of the class-level constant `name` defined in the body of class `c` (literal, enum member, folded expression) or None."""
+    av = c.attrs.get(name)
+    if av is None:
+        return None
+    fr = Frame(Interp(prog, Scenario()), FunctionInfo(ast.parse('def _f(): pass').body[0], c.module, c), 0)
+    v = fr.ev(av, State())
+    if isinstance(v, Const):
+        return v.value.value if isinstance(v.value, Enum) else v.value
+    return None
+
+
 def check_dispatch(rep, prog):
     tags = prog.cls('pgpy.constants', 'PacketTag').enum_members()
     pk = prog.module('pgpy.packet.packets')
     by_tag = {}
     for c in pk.classes.values():
-        t = c.attrs.get('__typeid__')
-        if t is not None:
-            try:
-                by_tag.setdefault(ast.literal_eval(t), []).append(c)
-            except Exception:
-                pass
+        if '__typeid__' in c.attrs:
+            t = _class_const(prog, c, '__typeid__')
+            if t is None and not (isinstance(c.attrs['__typeid__'], ast.Constant) and c.attrs['__typeid__'].value is None):
+                raise AnalysisError('%s.__typeid__ is not a constant the checker can evaluate' % c.name)
+            by_tag.setdefault(t, []).append(c)
     for name, val in tags.items():
         if name == 'Invalid':
             continue
@@ -655,10 +666,9 @@ def check_dispatch(rep, prog):
         rep.check(bool(cs), 'C08.g', 'PacketTag.%s' % name, 'tag %d -> %s' % (val, [c.name for c in cs]),
                   'every packet tag PGPy names must have a packet class (unknown tags fall back to Opaque)', where=pk.relpath, scenario=name)
         for c in cs:
-            ver = c.attrs.get('__ver__')
-            if ver is not None and ast.literal_eval(ver) == 0:
+            if _class_const(prog, c, '__ver__') == 0:
                 # versioned family: at least one concrete version defining both methods
-                subs = [s for s in prog.subclasses(c) if s.attrs.get('__ver__') is not None and ast.literal_eval(s.attrs['__ver__']) > 0]
+                subs = [s for s in prog.subclasses(c) if (_class_const(prog, s, '__ver__') or 0) > 0]
                 ok = bool(subs) and all(s.find_method('parse') is not None and s.find_method('__bytearray__') is not None and
                                         s.find_method('parse').cls.name not in ('Packet', 'PGPObject') for s in subs)
                 rep.check(ok, 'C08.g', c.name, 'versions %s' % [s.name for s in subs], 'a versioned packet family needs a concrete version with both codec methods',
